@@ -235,13 +235,20 @@ def judge(ctx, FST, label, build, mode, entry, opts, rnd):
         ctx.count('empty_set_without_norm(documented representation, not judged)')
         return
     tuple_arglike = mname in ('_arglike',) and isinstance(src.a if entry != 'as_inplace' else out.a, ast.Tuple) or (mname == '_arglike' and isinstance(out.a, ast.Tuple))
+    def bare_tuple(text):
+        """the source spells a tuple WITHOUT enclosing parentheses of its own (decided by CPython: 'x = <text>' is a Tuple that does not start at an opening parenthesis spanning it all)"""
+        try:
+            v = ast.parse('x = (\n' + text + '\n)').body[0].value
+            return isinstance(v, ast.Tuple) and v.lineno == 1   # the wrapper's own parentheses became the tuple's: it had none
+        except SyntaxError:
+            return False
     try:
         re_ = FST(out.src, mode)
     except Exception as e:
-        ctx.violation('tuple-undelimited-as-arglike' if tuple_arglike and not out.src.lstrip().startswith('(') else 'yield-as-arglike-unparenthesized' if isinstance(out.a, (ast.Yield, ast.YieldFrom)) and mname in ('_arglike', '_arglikes', 'expr_arglike') else f'coercion-result-does-not-parse-in-mode:{mname}', f'{entry} of {ocls} {short(label, 60)!r} to {mname!r}: result source {short(out.src, 100)!r} is rejected in that mode: {type(e).__name__}: {short(str(e), 80)}', case)
+        ctx.violation('tuple-undelimited-as-arglike' if tuple_arglike and bare_tuple(out.src) else 'yield-as-arglike-unparenthesized' if isinstance(out.a, (ast.Yield, ast.YieldFrom)) and mname in ('_arglike', '_arglikes', 'expr_arglike') else f'coercion-result-does-not-parse-in-mode:{mname}', f'{entry} of {ocls} {short(label, 60)!r} to {mname!r}: result source {short(out.src, 100)!r} is rejected in that mode: {type(e).__name__}: {short(str(e), 80)}', case)
         return
     if D(re_.a) != D(out.a):
-        ctx.violation('tuple-undelimited-as-arglike' if tuple_arglike and not out.src.lstrip().startswith('(') else f'coercion-result-out-of-sync:{mname}', f'{entry} of {ocls} {short(label, 60)!r} to {mname!r}: result tree differs from a parse of its source {short(out.src, 100)!r} in that mode', case)
+        ctx.violation('tuple-undelimited-as-arglike' if tuple_arglike and bare_tuple(out.src) else f'coercion-result-out-of-sync:{mname}', f'{entry} of {ocls} {short(label, 60)!r} to {mname!r}: result tree differs from a parse of its source {short(out.src, 100)!r} in that mode', case)
         return
     if isinstance(mode, str) and mode in embed._REF:
         ok, detail = embed.compare_with_ref(out.a, mode, out.src)
